@@ -65,6 +65,9 @@ type c16case struct {
 	DelayMs int  `json:"exit_delay_ms"` // 0 = flag absent (default 300 ms)
 	Chunks  int  `json:"chunks"`
 	Late    bool `json:"inject_late_reply_per_chunk"`
+	// every probe is also answered 1.5 x delay late, i.e. after its chunk's socket has been closed:
+	// nothing is expected to be reported for those, but the scan must go on (no crash, all chunks probed)
+	AfterClose bool `json:"answer_every_probe_after_its_chunk_ended"`
 }
 
 func scenC16(run *vlab.Run, sx, tmp string) {
@@ -105,6 +108,9 @@ func scenC16(run *vlab.Run, sx, tmp string) {
 		c.Extra = []string{"--srcip", foreignSrcIP}
 		if c.DelayMs > 0 {
 			c.Extra = append(c.Extra, "--exit-delay", fmt.Sprintf("%dms", c.DelayMs))
+		}
+		if c.Chunks > 1 && c.DelayMs <= 500 && i%2 == 1 {
+			c.AfterClose = true
 		}
 		cases = append(cases, c)
 	}
@@ -148,6 +154,10 @@ func scenC16(run *vlab.Run, sx, tmp string) {
 				seen[ch]++
 				last := seen[ch] == perChunk[ch]
 				mu.Unlock()
+				if c.AfterClose && ch+1 < c.Chunks {
+					fr, _ := replyFor(c.Kind, oracle.LinkEthernet, dec, a, port, prng)
+					time.AfterFunc(delay*3/2+20*time.Millisecond, func() { cr.Inject(d, fr) })
+				}
 				if last && c.Late {
 					fr, rec := replyFor(c.Kind, oracle.LinkEthernet, dec, a, port, prng)
 					mu.Lock()
@@ -228,6 +238,9 @@ func scenC16(run *vlab.Run, sx, tmp string) {
 			}
 		}
 		run.Count("c16_wire_runs", 1)
+		if c.AfterClose {
+			run.Count("runs_with_replies_after_chunk_end", 1)
+		}
 		if c.Chunks > 1 {
 			run.Count("c16_chunked_runs", 1)
 		}
